@@ -17,6 +17,19 @@ CHECKS = {
         technique="Coq proof over translated classifier + hand model, differential correspondence", design="5/C06"),
 }
 
+CHECKS["C02"] = dict(
+    text="Coq theorems over a wire model of serialization.py (all packers incl. nested/listed payloads, tunnel flags, DHT node "
+         "lists): pack_unpack_fmt / msg_roundtrip (decode(encode v) = v with exact end offset, at any offset between any bytes, by "
+         "mutual induction over the format universe - unbounded nesting and list length), registry_is_documented (the live packer "
+         "registry, regenerated from the running code every run, equals the documented wire table), shipped_wf/shipped_roundtrip "
+         "(every Serializable shipped in ipv8, regenerated every run, is well-formed hence round-trips). The model is tied to the "
+         "real Serializer by differential runs on every registry entry and every shipped class; the property itself "
+         "(identical fields, exact consumption, identical re-encoding, plain/nested/listed) is evaluated on the implementation.",
+    note="Trusted: Coq kernel; tr_wire introspection; hand model M02_wire (correspondence-checked per run); CPython struct/array/"
+         "socket; str<->UTF-8 bijection. Class-specific field maps of the 16 old-style payloads are covered by the oracle on the "
+         "implementation, not by a theorem. Open finding: array formats use machine byte order (documented big-endian).",
+    technique="Coq proof (mutual induction over formats) + translated registry tables + differential correspondence", design="5/C02")
+
 NOT_APPLICABLE = {}
 
 
